@@ -727,6 +727,20 @@ func Pause() {
 	x.cur.sig = x.cur.sig.Mix(uint64(KPause))
 }
 
+// WaitFor blocks the calling harness thread until pred holds (pred must only read state that
+// changes through shim operations, so that the state signature sees every change).
+func WaitFor(pred func() bool) {
+	x := X
+	if x == nil || x.cur == nil {
+		return
+	}
+	Point(KPause, nil, pred)
+	if x.aborting {
+		return
+	}
+	x.cur.sig = x.cur.sig.Mix(uint64(KPause), 1)
+}
+
 // Go runs f as a new virtual thread (rewritten `go` statements).
 func Go(f func()) {
 	x := X
